@@ -191,6 +191,22 @@ def run_e2(res, tier):
                     cases.append({"prog": pid, "op": "dispatch", "kind": m.kind, "part": "wrapper", "input": d, "ctx": fam_basic.CONTEXTS[1]})
                     exp.append((pid, c, label, disp, m, "dispatch", d, None, len(cases) - 1))
     obs = cp.run_cases(cases)
+    # every kind of every program, also kinds without any handler (empty name tables): an unknown name is an error, never a panic
+    ecases = []
+    for pid, (c, tags, names) in sorted(info.items()):
+        if pid in cp.failed:
+            continue
+        for k in ENUMK:
+            for d in ('{"nope":{}}', '{"nope":null}', '{"":{}}', '{}'):
+                ecases.append({"prog": pid, "op": "decode", "kind": k, "part": "wrapper", "input": d})
+    for ec, o in zip(ecases, cp.run_cases(ecases)):
+        res.add(states=1, transitions=1, traces=1, evaluations=1)
+        res.outcome(("unknown_any_kind", "panic" in o, bool(o.get("ok"))))
+        if "panic" in o or o.get("ok"):
+            res.violation({"kind": "differential", "cls": "panic" if "panic" in o else "wrapper_accepts_none_accept", "op": "unknown_name_any_kind", "pid": ec["prog"], "mkind": ec["kind"], "doc": ec["input"], "wrapper": o,
+                           "native_128": False,
+                           "what": "%s: the contract-level %s message answers %s with %s (an error naming the supported messages is promised)" % (
+                               ec["prog"], ec["kind"], ec["input"], ("a panic: " + str(o.get("panic"))[:200]) if "panic" in o else "acceptance")})
     tables = {}
     tcases = []
     for pid, (c, tags, names) in sorted(info.items()):
